@@ -252,6 +252,10 @@ FLOWS = {
 }
 FLOWS.update({'del_child_A_same_spi': (flow_del_child, {'who': 'A'}, {}), 'del_child_B_same_spi': (flow_del_child, {'who': 'B'}, {}),
               'del_ike_A_same_spi': (flow_del_ike, {'who': 'A'}, {}), 'rekey_ike_B_same_spi': (flow_rekey_ike, {'who': 'B'}, {})})
+# a second CHILD_SA whose SPIs repeat those of the first (equal random draws; an authenticated peer may also simply reuse a value): the kernel refuses the
+# duplicate (EEXIST) and the roll-back must not touch the SAs of the CHILD_SA that owns the value
+FLOWS.update({'new_child_same_spi': (flow_new_child, {}, {}), 'rekey_child_A_same_spi': (flow_rekey_child, {'who': 'A'}, {}),
+              'rekey_child_B_same_spi': (flow_rekey_child, {'who': 'B'}, {})})
 FLOWS.update({f'del_ike_{w}_{k}_children': (flow_del_ike, {'who': w, 'children': k}, {}) for w in 'AB' for k in (2, 3)})
 FLOWS.update({f'after_rekey_{w}_{t}': (flow_after_rekey, {'who': w, 'then': t}, {}) for w in 'AB' for t in ('soft', 'hard', 'acquire', 'dpd')})
 MIXED = {'mode': 'tunnel'}
